@@ -52,6 +52,25 @@ func c19Gen(r *rand.Rand, tier string) []spec.Case {
 	add("seq", spec.C19Case{Mode: "ok-nolisten", Threads: [][]string{{"Start", "Client", "ReattachConfig", "Kill", "Client", "Start", "Protocol", "ReattachConfig"}}})
 	add("seq", spec.C19Case{Mode: "ok-nolisten", Threads: [][]string{{"Start", "Kill", "Start", "ReattachConfig", "Client"}}})
 	add("seq", spec.C19Case{Mode: "ok-nolisten", Threads: [][]string{{"Client", "Kill", "Kill", "Protocol", "Start"}}})
+	// Start succeeds, nothing listens yet: Client() fails; then the plugin starts listening ("Listen" is the
+	// harness' own step, not a client call) and Client() must succeed and keep returning that one client
+	nl := 6
+	if tier == "thorough" {
+		nl = 300
+	}
+	add("seq", spec.C19Case{Mode: "ok-latelisten", Threads: [][]string{{"Start", "Client", "Listen", "Client", "Client", "Protocol", "Client", "ReattachConfig"}}})
+	add("seq", spec.C19Case{Mode: "ok-latelisten", Threads: [][]string{{"Client", "Client", "Listen", "Client", "Start", "Client", "ID"}}})
+	for i := 0; i < nl; i++ {
+		th := [][]string{{"Client", "Listen", "Client", "Client"}}
+		for k := 0; k < 1+r.Intn(4); k++ {
+			var ops []string
+			for j := 0; j < 2+r.Intn(3); j++ {
+				ops = append(ops, pick(r, []string{"Client", "Client", "Start", "Protocol", "ReattachConfig", "Exited"}))
+			}
+			th = append(th, ops)
+		}
+		add("conc", spec.C19Case{Mode: "ok-latelisten", Threads: th, Jitter: i%2 == 0})
+	}
 	// the D11 shape explicitly: failed first Start, then everything at once
 	for _, m := range []string{"fail-line", "fail-timeout", "fail-exit", "fail-proto", "fail-cert", "proc-fail"} {
 		th := [][]string{{"Start"}}
@@ -70,10 +89,13 @@ type c19State struct {
 	Phase int // 0 new, 1 started, 2 failed, 3 killed (after started), 4 killed (after failed)
 	Addr  string
 	Ptr   string
+	// Listening (mode ok-latelisten): the plugin has started to listen at the announced address
+	Listening bool
 }
 
 func c19Model(mode string) porcupine.Model {
-	firstOK := mode == "ok" || mode == "proc-ok" || mode == "cmd-ok" || mode == "ok-nolisten"
+	firstOK := mode == "ok" || mode == "proc-ok" || mode == "cmd-ok" || mode == "ok-nolisten" || mode == "ok-latelisten"
+	lateListen := mode == "ok-latelisten"
 	noListen := mode == "ok-nolisten" // Start succeeds, the protocol client can never be built
 	prelaunch := mode == "prelaunch-fail"
 	// begin: effect of an implicit Start on a new client
@@ -122,7 +144,25 @@ func c19Model(mode string) porcupine.Model {
 					s.Addr = o.Addr
 				}
 				return s.Addr == o.Addr, s
+			case "Listen":
+				s.Listening = true
+				return true, s
 			case "Client":
+				if lateListen && !s.Listening {
+					// nothing listens yet: the implicit Start takes effect, the call itself fails
+					if s.Phase == 0 {
+						s.Phase = 1
+					}
+					return !o.OK, s
+				}
+				if lateListen && s.Phase == 0 {
+					// (a Client() that is the first call and runs after the listener came up)
+					if !o.OK {
+						return false, s
+					}
+					s.Phase, s.Ptr = 1, o.Ptr
+					return true, s
+				}
 				if noListen {
 					// the implicit Start takes effect, the call itself fails, every time
 					if s.Phase == 0 {
